@@ -123,7 +123,10 @@ def register(ctx, report, facts, config, rule="C17.REGISTER"):
         report.ob(rule, "register/%s" % variant, not problems, "; ".join(problems) if problems else
                   ("new type: index = indices.len(), one append to %s and tys" % vt if variant == "Vacant" else "known type: slot *occ.get() overwritten, nothing appended"),
                   site=b.loc(), config=config)
-    report.ob(rule, "register/arms", seen == set(["Vacant", "Occupied"]), "arms handled: %s" % sorted(seen), site=b.loc(), config=config)
+    report.ob(rule, "register/arms", seen == set(["Vacant", "Occupied"]),
+              "a known type (occupied entry of `indices`) and a new type (vacant entry) are handled separately" if seen == set(["Vacant", "Occupied"]) else
+              "register does not branch on indices.entry(TypeId::of::<R>()) into an occupied and a vacant arm (arms found: %s): repeated registration cannot be told from a new type, "
+              "so the three tables may get out of step" % sorted(seen), site=b.loc(), config=config)
     # attach_vtable's type arguments are (T, R) in this order
     if vt == "vtable_fns":
         bt = prog.bt(b)
